@@ -734,10 +734,16 @@ class CDSInterval(AbstractFeatureInterval):
                 rel_start += frame.value
                 # remove trailing codon from previous block
                 shift = sum((coords[1] - coords[0] for coords in zip(cleaned_rel_starts, cleaned_rel_ends))) % 3
-                if shift > 0:
+                while shift > 0:
                     # it may be possible for this shift to end up producing a 0bp block
                     # this will be dropped in the list comprehension below that generates the cleaned_blocks
-                    cleaned_rel_ends[-1] = cleaned_rel_ends[-1] - shift
+                    trim = min(shift, cleaned_rel_ends[-1] - cleaned_rel_starts[-1])
+                    cleaned_rel_ends[-1] = cleaned_rel_ends[-1] - trim
+                    shift -= trim
+                    if shift > 0:
+                        # the previous block is shorter than the trailing codon, which continues in the block before it
+                        cleaned_rel_starts.pop()
+                        cleaned_rel_ends.pop()
                 # we are now inherently in frame
                 next_frame = CDSFrame.ZERO
             # it may be the case that the removal of the trailing codon from the previous block entirely
